@@ -5,6 +5,8 @@ from .. import tlc, common
 
 SCALE = 10 ** 4
 STARTS = [0, 10000, 5000, 1000, 22500, 100000, 1003000]                       # 0, 1, .5, .1, 2.25, 10, 100.3
+# a wide lattice of start times for the grid function alone (cheap): every tenth in 0..100, some hundredths and thousandths
+WIDE_STARTS = [k * 1000 for k in range(0, 1001)] + [k * 100 + 50 for k in range(0, 1000, 7)] + [80500, 46250, 99990, 640100, 20201000]
 DTS = [10000, 20000, 5000, 2500, 1250, 625, 1000, 2000, 500, 200, 100, 3000, 7000]   # 1, 2, .5, .25, .125, .0625, .1, .2, .05, .02, .01, .3, .7
 
 
@@ -168,6 +170,21 @@ def run(tier, replay_file=None):
         R.add("traces_validated_against_impl")
         if len(R.violations) >= 25:
             break
+    # util.timerange over the wide lattice of start times (dt = .1, .25, .05; 10 steps)
+    from BPTK_Py.util import timerange
+    wide = 0
+    for st in WIDE_STARTS:
+        for dtk in (1000, 2500, 500):
+            labels = [st + i * dtk for i in range(11)]
+            d = exact(timerange(fl(st), fl(labels[-1]), fl(dtk), exclusive=False), [fl(x) for x in labels])
+            wide += 1
+            if d:
+                d.update({"start": fl(st), "dt": fl(dtk), "stop": fl(labels[-1]), "channel": "util.timerange(start, stop, dt, exclusive=False)"})
+                R.violation("time labels of util.timerange are not the decimal grid (wide lattice of start times)", d)
+                break
+        if len(R.violations) >= 25:
+            break
+    R.cov["wide_lattice_grids"] = wide
     R.sample({"start": fl(cases[5]["start"]), "dt": fl(cases[5]["dt"]), "labels": [fl(x) for x in cases[5]["labels"]][:8]})
     # negative control
     ctl = common.Run("C05", tier, "model_checking")
